@@ -125,6 +125,20 @@ func (fr *frame) externalModel(name string, cc *ssa.CallCommon, args []T, st *St
 						nv = c.name("json", app(si.Name, "mk_"+si.Name, fargs...))
 					}
 				}
+				if slt, ok := under(et).(*types.Slice); ok {
+					if _, isBasic := under(slt.Elem()).(*types.Basic); isBasic {
+						// slice model: a new backing array whose element i is the wire
+						// element i (uninterpreted function of the input bytes), of the
+						// wire array's length
+						r := c.newObj(st, "jsonarr")
+						n := c.jsonLen(args[0])
+						c.assume(st, le(IntLit(0), n))
+						h := c.getHeap(st, c.R.CellHeapT(slt.Elem()))
+						el := c.jsonElem(args[0], T{"i", "Int"}, slt.Elem())
+						c.emit("(assert (forall ((i Int)) (! (= (select %s (ridx %s i)) %s) :pattern ((ridx %s i)))))", h.S, r.S, el.S, r.S)
+						nv = c.name("json", MkSlice(r, IntLit(0), n, n))
+					}
+				}
 				c.store(st, p, et, nv)
 				e := c.fresh("json_err", "Iface")
 				if c.R.SortOf(et) == "Iface" && c.Opt.JSONShape {
@@ -143,6 +157,19 @@ func (fr *frame) externalModel(name string, cc *ssa.CallCommon, args []T, st *St
 	case "encoding/json.Marshal":
 		b := c.fresh("json_bytes", "Slice")
 		c.assumeValid(st, b, types.NewSlice(types.Typ[types.Byte]))
+		if mi, ok := cc.Args[0].(*ssa.MakeInterface); ok {
+			if slt, ok := under(mi.X.Type()).(*types.Slice); ok {
+				if _, isBasic := under(slt.Elem()).(*types.Basic); isBasic {
+					// slice model (the inverse of Unmarshal's): the bytes encode an
+					// array of the slice's length whose element i is the slice's
+					sl := fr.val(mi.X)
+					c.assume(st, Eq(c.jsonLen(b), SLen(sl)))
+					h := c.getHeap(st, c.R.CellHeapT(slt.Elem()))
+					el := c.jsonElem(b, T{"i", "Int"}, slt.Elem())
+					c.emit("(assert (=> %s (forall ((i Int)) (! (=> (and (<= 0 i) (< i %s)) (= %s (select %s (selem %s i)))) :pattern (%s)))))", st.pc.S, SLen(sl).S, el.S, h.S, sl.S, el.S)
+				}
+			}
+		}
 		return []T{b, c.fresh("json_err", "Iface")}, true
 	}
 	if name == "reflect.Type.Comparable" {
@@ -423,6 +450,20 @@ func (c *Ctx) jsonField(data T, name string, t types.Type, st *State) T {
 		c.assumeValid(st, v, t)
 	}
 	return v
+}
+
+// jsonElem / jsonLen: element i and length of the wire array encoding/json decodes
+// into a slice of a basic type (uninterpreted; one function per element sort).
+func (c *Ctx) jsonElem(data, i T, t types.Type) T {
+	sortS := c.R.SortOf(t)
+	fn := "jsonelem_" + sortID(sortS)
+	c.R.UFun(fn, fmt.Sprintf("(declare-fun %s (Slice Int) %s)", fn, sortS))
+	return app(sortS, fn, data, i)
+}
+
+func (c *Ctx) jsonLen(data T) T {
+	c.R.UFun("jsonlen", "(declare-fun jsonlen (Slice) Int)")
+	return app("Int", "jsonlen", data)
 }
 
 // declRT: reflect.MapOf / PtrTo / SliceOf as free constructors on reflect.Type values.
